@@ -752,6 +752,21 @@ func check(prop, tier string) int {
 		}
 	}
 
+	// every open finding listed for this property is named on every run, drawn or not
+	for _, kf := range known {
+		if kf.Property != prop || kf.Status != "open" {
+			continue
+		}
+		hit := false
+		for _, l := range knownHit {
+			if strings.Contains(l, "[fingerprint="+kf.Fingerprint+" ") {
+				hit = true
+			}
+		}
+		if !hit {
+			fmt.Printf("KNOWN-FINDING: property=%s %s [fingerprint=%s not drawn in this run]\n", prop, kf.What, kf.Fingerprint)
+		}
+	}
 	if exit == 0 && m.stuck > 10 && uint64(m.stuck)*100 > m.runs {
 		trouble("%d of %d runs wedged the simulator and were abandoned: too many for a clean verdict", m.stuck, m.runs+uint64(m.stuck))
 	}
